@@ -164,6 +164,26 @@ pub fn evaluate_filters(
     true
 }
 
+/// Negation as failure: true when no NOT atom of a rule, instantiated with `bindings`,
+/// is a known fact. A NOT atom with an unbound variable (unsafe rule) never holds.
+pub fn negative_premises_hold(
+    bindings: &HashMap<String, u32>,
+    negative_premise: &[TriplePattern],
+    known_facts: &HashSet<Triple>,
+) -> bool {
+    let resolve = |term: &Term| match term {
+        Term::Variable(v) => bindings.get(v).copied(),
+        Term::Constant(c) => Some(*c),
+        Term::QuotedTriple(_) => None,
+    };
+    negative_premise.iter().all(|(s, p, o)| match (resolve(s), resolve(p), resolve(o)) {
+        (Some(subject), Some(predicate), Some(object)) => {
+            !known_facts.contains(&Triple { subject, predicate, object })
+        }
+        _ => false,
+    })
+}
+
 pub fn join_premise_with_hash_join(
     premise: &TriplePattern,
     all_facts: &[Triple],
